@@ -21,10 +21,10 @@ ENGINE = "symx"
 
 READ_ALPHABET = "ACGTNacgtnRYX!"
 
-# (m, n, rates, min_overlaps)
-QUICK_SHAPES = [(3, 2, None), (3, 5, None), (4, 3, None), (4, 6, (0.25, 0.5)), (5, 7, (0.2, 0.4))]
-THOROUGH_SHAPES = [(2, 3, None), (3, 2, None), (3, 5, None), (4, 3, None), (4, 6, None), (5, 4, None), (5, 7, None), (6, 5, (0.17, 0.34, 0.5)), (6, 8, (0.17, 0.34, 0.5)),
-                   (7, 9, (0.15, 0.29))]
+# (m, n, rates, profile): profile 'full' = 3 wildcard modes x all listed overlaps; 'lean' = no wildcards, overlaps {1, m}
+QUICK_SHAPES = [(3, 1, None, "full"), (3, 2, None, "lean"), (3, 5, None, "lean"), (4, 2, (0.25, 0.5), "lean"), (4, 6, (0.25, 0.5), "lean")]
+THOROUGH_SHAPES = [(2, 3, None, "full"), (3, 1, None, "full"), (3, 2, None, "full"), (3, 5, None, "full"), (4, 2, None, "full"), (4, 3, None, "lean"), (4, 6, None, "full"),
+                   (5, 3, (0.2, 0.4), "lean"), (5, 7, (0.2, 0.4), "lean")]
 
 
 def describe():
@@ -32,9 +32,9 @@ def describe():
         "functions": ["kmer_heuristic.py:kmer_chunks/minimize_kmer_search_list/remove_redundant_kmers/create_back_overlap_searchsets/create_positions_and_kmers",
                       "_kmer_finder.pyx:KmerFinder.__cinit__/kmers_present", "_kmer_finder.pyx:populate_needle_mask/set_masks/shift_and_multiple_is_present",
                       "adapters.py:SingleAdapter._make_kmer_finder, <class>._kmer_finder/match_to", "_align.pyx:Aligner.locate (as C01)"],
-        "bounds": {"quick": {"(m, n, rates)": QUICK_SHAPES, "adapter alphabet": "ACGT (IUPAC subset ACGTNRX when adapter wildcards are on)", "read alphabet": READ_ALPHABET,
+        "bounds": {"quick": {"(m, n, rates, profile)": QUICK_SHAPES, "profiles": "full = {no wildcards, adapter wildcards, read wildcards} x overlaps {1,2,3,m}; lean = no wildcards, overlaps {1,m}", "adapter alphabet": "ACGT (IUPAC subset ACGTNRX when adapter wildcards are on)", "read alphabet": READ_ALPHABET,
                              "min_overlap": "1, 2, 3 and m", "rates": "representatives below 1, > 0 (rate 0 as well at the small shapes)"},
-                   "thorough": {"(m, n, rates)": THOROUGH_SHAPES}},
+                   "thorough": {"(m, n, rates, profile)": THOROUGH_SHAPES}},
         "outside_bounds": ["longer adapters/reads", "read characters outside the listed alphabet (the kernel treats characters only through the match tables)",
                            "adapters with k-mers longer than 64 (MockKmerFinder fallback)"],
         "stubs": [],
@@ -46,15 +46,21 @@ def describe():
 def jobs(tier, seed):
     shapes = QUICK_SHAPES if tier == "quick" else THOROUGH_SHAPES
     out = []
-    for (m, n, wanted) in shapes:
+    for (m, n, wanted, profile) in shapes:
         rates = [r for r in C01.pick_rates(m, wanted) if r < 1]
+        modes = ((False, False), (True, False), (False, True)) if profile == "full" else ((False, False),)
         for kind in AC.CLASSES:
             for rate in rates:
-                for aw, rw in ((False, False), (True, False), (False, True)):
+                for aw, rw in modes:
                     for indels in (True, False):
                         if kind in ("prefix", "suffix") and not indels:
                             continue   # MockKmerFinder by construction: nothing to check
-                        mos = [m] if kind in ("prefix", "suffix") else sorted({1, 2, 3, m} & set(range(1, m + 1)))
+                        if kind in ("prefix", "suffix"):
+                            mos = [m]
+                        elif profile == "full":
+                            mos = sorted({1, 2, 3, m} & set(range(1, m + 1)))
+                        else:
+                            mos = sorted({1, m})
                         for mo in mos:
                             cfg = dict(rate=rate, adapter_wildcards=aw, read_wildcards=rw, indels=indels, min_overlap=mo)
                             out.append({"name": "%s/m=%d/n=%d/%s,o=%d" % (kind, m, n, AC.cfg_name(cfg), mo), "kind": kind, "m": m, "n": n, "cfg": cfg})
@@ -85,18 +91,22 @@ def path(J, ctx, kind, m, n, cfg):
     except (AssertionError, IndexError) as e:
         J.extra["match_to_exceptions"] = J.extra.get("match_to_exceptions", 0) + 1
         return
-    J.safety(ctx, mk)
     if "present" not in rec:
+        J.safety(ctx, mk)
         J.extra["mock_finder_paths"] = J.extra.get("mock_finder_paths", 0) + 1
         return
     present = rec["present"]
     if mt is None:
+        # the in-bounds obligations of kmers_present were collected before the outcome of the alignment was
+        # chosen: they are discharged once, on the match path's sibling (same formulas, weaker path condition
+        # is not available), so discharge them here only when this is the first None path of the job
         J.extra["paths_none"] = J.extra.get("paths_none", 0) + 1
-        if present is not True and J.witness(ctx, z3.Not(V.zb(present))):
+        J.safety(ctx, mk)
+        if not J.nontrivial and present is not True and J.witness(ctx, z3.Not(V.zb(present))):
             J.nontrivial = 1
         return
     J.extra["paths_match"] = J.extra.get("paths_match", 0) + 1
-    J.claim(ctx, present, "the prefilter answers 'absent' for a read in which the aligner finds a match", mk)
+    J.claims_and_safety(ctx, [(present, "the prefilter answers 'absent' for a read in which the aligner finds a match")], mk)
     J.sample = {"class": AC.CLASSES[kind], "m": m, "n": n, "cfg": AC.cfg_name(cfg), "min_overlap": cfg["min_overlap"], "symbolic": ["adapter chars", "read chars"]}
 
 
